@@ -95,8 +95,10 @@ func (s *scanner) peek() (*pb.Result, error) {
 	if err != nil {
 		return nil, err
 	}
-	if !s.closed && s.rpc.RenewInterval() > 0 {
-		// Start up a renewer
+	if !s.closed && s.rpc.RenewInterval() > 0 && !s.isRegionScannerClosed() {
+		// Start up a renewer (only while a region scanner is open: between
+		// regions a renewal carries no scanner id, which makes the server
+		// open a new scanner that nobody ever closes)
 		renewCtx, cancel := context.WithCancel(s.rpc.Context())
 		s.renewCancel = cancel
 		go s.renewLoop(renewCtx, s.startRow)
